@@ -808,6 +808,9 @@ def driver_ops(case):
     t = dict(common, op="C05.table", dAs=fl(tab["ang_diameter_distances"]), zlist=fl(tab["redshifts"]))
     if okK is not None:
         t["ok"], t["K"] = f2b(okK[0]), f2b(okK[1])
+    elif case["kw"].get("ok", 0.0) != 0:
+        # a curved cosmology whose table comes without K: the sampled 'ok' is what cosmo_instance sees (model: tabCurv)
+        t["ok"] = f2b(case["kw"]["ok"])
     ops.append(t)
     return ops
 
@@ -821,6 +824,10 @@ def compare_model(res, case, obs, outs):
     for mode, o in obs.items():
         r = rep[mode]
         if "ok" not in r:
+            ci = o.get("cosmo_instance")
+            if mode == "tabulated" and r.get("err") == "ValueError" and ci is not None and ci.get("err") == "ValueError":
+                res.count("err=ValueError(curved table without K): model and implementation")     # tabCurv_missing_K
+                continue
             res.disagree("model raised %s in mode %s" % (r.get("err"), mode), enc_case(case))
             continue
         m = r["ok"]
